@@ -15,11 +15,12 @@ type c01Scenario struct {
 	Syms []string `json:"syms"`
 	Cfg  aofCfg   `json:"cfg"`
 	Max  int      `json:"max_ticks"`
+	Base    string `json:"base,omitempty"` // stream start offset: "" = 1000, "0", "big" = 2^32+7
 	Preempt bool  `json:"preempt,omitempty"`
 	Plan []string `json:"plan,omitempty"` // preemption plan: "<file:line>#<occurrence>" wake-up statements of syncer/output.go
 }
 
-var c01Alphabet = []string{"w1", "w2", "we", "wx", "d", "df", "mf", "s1", "s0", "sb", "t1", "t2", "ts", "p", "g", "b", "bc", "f", "h", "n"}
+var c01Alphabet = []string{"w1", "w2", "we", "wx", "d", "df", "mf", "s1", "s0", "sb", "t1", "t2", "t3", "ts", "p", "g", "b", "bc", "f", "h", "n"}
 
 // c01Reduced keeps one representative per behaviour class for the deeper plans.
 var c01Reduced = []string{"w1", "w2", "df", "s1", "sb", "t2", "ts", "p", "f", "n"}
@@ -108,6 +109,20 @@ func runC01(t *testing.T, rep *mc.Reporter) {
 			}
 		})
 	}
+	// ---- stream start offsets 0 and 2^32+7 (every other plan starts at 1000)
+	for _, base := range []string{"0", "big"} {
+		base := base
+		enumSeqs([]string{"w1", "s1", "t2", "p", "t3"}, 2, func(seq []string) {
+			for _, cfg := range quickCfgs {
+				idx++
+				if idx%nshards != shard || budget.Expired() {
+					continue
+				}
+				scn := c01Scenario{Syms: append([]string{"s0"}, seq...), Cfg: cfg, Max: 1, Base: base}
+				mc.RunScenario(rep, scn, 1, budget, func(ch *mc.Chooser) mc.Result { return c01Exec(t, scn, ch) })
+			}
+		})
+	}
 	// ---- preemption family: default feeding schedule, every wake-up statement of syncer/output.go
 	// (close, channel send, go, Unlock, Done, Close) reached is a point at which the running
 	// goroutine may be held back until all others block; all placements of up to pbound preemptions
@@ -149,6 +164,7 @@ func c01Exec(t *testing.T, scn c01Scenario, ch *mc.Chooser) mc.Result {
 // c01ExecPlan: with scn.Plan the wake-up statements of syncer/output.go named in the plan hold
 // their goroutine back until everything else has run until it blocked.
 func c01ExecPlan(t *testing.T, scn c01Scenario, ch *mc.Chooser) (res mc.Result, seen, hit []string) {
+	setBase(scn.Base)
 	msg := bubble(t, func() {
 		if scn.Plan != nil || scn.Preempt {
 			pre := installPreempt(scn.Plan)
